@@ -130,6 +130,10 @@ def run(R):
     diag_purity(R, ro, allm, "C18.TOTAL")
     R.require_min("C18.TOTAL", 20)
     diag_robust(R, allm, "C18.TOTAL")
+    ng = reentrancy_guards(R, allm, "C18.TOTAL")
+    R.need(ng >= 1, "idiom: no recursion-guarded text method found (FutureBase.__repr__ had one)")
+    # a future refuses to be tested for truth (TypeError from the truth slot in the compiled build): `x or "none"` in a text method
+    common.future_truthiness(R, "C18.TOTAL", only_under=set(f.qualname for f in allm.values()))
     # a text-producing method hands back a string on every path (`return None` from __repr__ is a TypeError in repr())
     for m in sorted(allm.values(), key=lambda f: f.qualname):
         if m.name not in ("__str__", "__repr__", "to_str", "_traceback_line", "traceback") or m.cls is None:
@@ -246,6 +250,17 @@ def run(R):
                     continue
                 if fn_ is aem:
                     continue        # the method that stamps an error for the first time is called from the handlers (C02.CAPTURE decides that)
+                # a future that is not a task hands its failure on untouched: prepare_for_reraise() is a no-op once an error carries a
+                # recorded traceback, so an error stamped where a plain future (a lazy Future's provider, a batch) caught it arrives at the
+                # first awaiting task already "prepared" - that task's own frame is then never recorded, and one level is missing from
+                # the glued traceback
+                own = fn_.cls if fn_.cls is not None else (f_.cls if f_.cls is not None else None)
+                if own is not None and own.is_subclass_of(ro.FutureBase) and not own.is_subclass_of(ro.AsyncTask):
+                    R.violation("C18.GLUE", "%s:prestamp" % fn_.qualname, R.site(fn_, c_),
+                                "%s stamps the error it caught (prepare_for_reraise) before any task has seen it: the first awaiting task's _accept_error finds the "
+                                "traceback slot taken and keeps the provider-only traceback - the frame of the task that awaited the future is missing from what "
+                                "the caller and format_error() see" % fn_.qualname)
+                    continue
                 hs_ = [a for a in q.ancestors(c_) if isinstance(a, ast.ExceptHandler)]
                 okp = False
                 if hs_ and isinstance(c_.args[0], ast.Name):
@@ -371,14 +386,18 @@ def run(R):
     first = [s_ for s_ in fe.node.body if isinstance(s_, ast.If)][0]
     R.check(q.src(first.test) == "%s is None" % ep0 and any(isinstance(x, ast.Return) for x in first.body), "C18.FORMAT", fe.qualname + ":none", R.site(fe),
             "only None formats to None", "format_error's None handling changed")
-    # debug.str/repr cannot raise Exception
-    dm = repo.modules["debug"]
+    safe_str_rule(R, "C18.SAFE-STR")
+
+
+def safe_str_rule(R, rule, why=""):
+    """debug.str / debug.repr cannot raise Exception: they delegate to qcore's safe_str / safe_repr."""
+    dm = R.repo.modules["debug"]
     for nm, ext in (("str", "qcore.safe_str"), ("repr", "qcore.safe_repr")):
         f = dm.functions.get(nm)
         R.need(f is not None, "anchor vanished: debug.%s" % nm)
         rs = [n.value for n in q.scope_nodes(f.node) if isinstance(n, ast.Return)]
-        R.check(len(rs) == 1 and isinstance(rs[0], ast.Call) and q.call_name(rs[0]) == ext, "C18.SAFE-STR", f.qualname, R.site(f),
-                "debug.%s delegates to %s (never raises Exception)" % (nm, ext), "debug.%s no longer delegates to %s" % (nm, ext))
+        R.check(len(rs) == 1 and isinstance(rs[0], ast.Call) and q.call_name(rs[0]) == ext, rule, f.qualname, R.site(f),
+                "debug.%s delegates to %s (never raises Exception)" % (nm, ext), "debug.%s no longer delegates to %s%s" % (nm, ext, why))
 
 
 def diag_closure(R):
@@ -667,6 +686,38 @@ def filter_rules(R):
 
 
 NULLABLE = ("gi_frame", "_generator", "_frame", "creator", "last_task", "tb_next", "f_back", "__traceback__", "cr_frame")
+
+
+def reentrancy_guards(R, allm, rule):
+    """A diagnostic method that guards itself against recursion with a flag (test the flag, set it, clear it in a finally) clears the flag
+    only in the activation that set it.  If the early `return "<recursion>"` sits inside the try, the inner (recursion-detecting)
+    call's finally clears the outer call's flag: the second reference to the same object recurses without bound."""
+    n = 0
+    for m in sorted(allm.values(), key=lambda f: f.qualname):
+        if m.cls is None:
+            continue
+        flags = {}
+        for recv, attr, node in q.attr_stores(m.node):
+            st = q.enclosing_stmt(node)
+            if recv == "self" and isinstance(st, ast.Assign) and isinstance(st.value, ast.Constant) and isinstance(st.value.value, bool):
+                flags.setdefault(attr, set()).add(st.value.value)
+        for attr, vals in sorted(flags.items()):
+            if vals != {True, False}:
+                continue
+            tested = [x for x in q.scope_nodes(m.node) if isinstance(x, (ast.If, ast.IfExp)) and q.atom_test(x.test)[0] == "truth" and q.atom_test(x.test)[1] == "self." + attr]
+            if not tested:
+                continue
+            n += 1
+            cfg = cfg_of(m)
+            sets_ = [x for x in kit.store_nodes(m, attr) if q.const_value(x.ast.value) is True]
+            clears = [x for x in kit.store_nodes(m, attr) if q.const_value(x.ast.value) is False]
+            p = cfg.find_path([cfg.entry], clears, N, cut_nodes=sets_)
+            R.check(p is None, rule, "%s:%s" % (m.qualname, attr), R.site(m),
+                    "self.%s is cleared only by the activation that set it" % attr,
+                    "%s can clear self.%s without having set it (the recursion exit runs the finally that resets the flag): the enclosing activation loses its "
+                    "guard, and an object that reaches itself twice (a list holding the future twice, two attributes) is printed with unbounded recursion"
+                    % (m.qualname, attr), cfg.fmt_path(p) if p else None)
+    return n
 
 
 def diag_robust(R, allm, rule):
